@@ -27,7 +27,11 @@ def assist(project, source, position, filename=None, debug=False):
     ln, col = position
     line = source.lines[ln - 1][:col]
     continued = ln > 1 and source.lines[ln - 2].rstrip().endswith('\\')
-    if line.lstrip().startswith('from ') and ' import ' not in line and not continued:
+    # the module name of an unfinished `from` import: nothing but that name
+    # stands behind the keyword (`from os import(pa` is past it)
+    module = line.lstrip()[5:].strip()
+    if (line.lstrip().startswith('from ') and not continued and
+            ' ' not in module and '\t' not in module and '(' not in module):
         # (on a continuation line `from` belongs to a raise or a yield)
         iname = line.rpartition(' ')[2]
         package, sep, prefix = iname.rpartition('.')
